@@ -9,7 +9,8 @@ CHECK = {
         "a directory is never renamed into its own subtree (kernel / NFS client reject this before calling the file system; excluded and counted)",
         "VirtualWrite / VirtualRead / VirtualClose are only issued on a leaf that was opened with that share bit (the CAS file panics by design on an un-intercepted write); VirtualWrite is never issued after a refused open",
         "hard links are only made to immutable leaves (CAS files, symlinks); locally created files are not hard linked (keeps the reference model a plain tree)",
-        "case-sensitive component normalizer, no hidden-files pattern, deterministic initial-contents sorter (sorted or a fixed permutation instead of the global random shuffle), as in the default bb_worker configuration",
+        "no hidden-files pattern; deterministic initial-contents sorter (sorted or a fixed permutation instead of the global random shuffle); case-sensitive normalizer in 3 of 4 cases, case-insensitive (bb_worker option case_insensitive) in 1 of 4",
+        "on a case-insensitive mount an input directory with two names differing only by case counts as a directory with duplicate names: its contents must be an error, not a tree and not a panic (finding C17/case-insensitive-name-collision-panics; while that is listed as open in known_findings.json such directories are renamed by the generator and counted as excluded)",
         "a rename between two names of byte-identical immutable leaves may or may not be a no-op (stateless handles are deduplicated by the NFS allocator): both POSIX outcomes are accepted",
         "chmod on CAS-backed files is not exercised (the code documents it as tolerated for Bazel's sake)",
         "the reference model (plain mutable tree expanded from the DAG templates) and the rendering used to compare both sides are trusted",
@@ -35,6 +36,6 @@ CHECK = {
 META = {
     "text": "Generated search, no proof of absence. The real lazy input root stack (BlobAccessDirectoryFetcher + CachingDirectoryFetcher with a 1-3 entry cache, CASInitialContentsFetcher, BlobAccess/StatelessHandleAllocating CAS file factory, InMemoryPrepopulatedDirectory with FUSE or NFS handle allocator, virtualBuildDirectory.MergeDirectoryContents; thorough also naiveBuildDirectory + HardlinkingFileFetcher on disk) is driven by rapid-generated Directory DAGs and step scripts and compared, answer by answer, with a plain mutable copy of the expanded DAG. Storage faults are enumerated exhaustively per scenario (every CAS read x 4 fault kinds), hence level fault_enumeration; tree shapes, exploration orders and local edits are sampled.",
     "design_ref": "6/C17",
-    "note": "Trusts the hand-written fake CAS, the in-memory file pool used for locally created files, and the reference model. Does not go through the FUSE/NFSv4 front ends (NFSv4 OPEN/WRITE/SETATTR refusal on CAS files is left to the C18/C19 simulators); named attributes, hidden files, the case-insensitive normalizer and access monitoring are not exercised.",
+    "note": "Trusts the hand-written fake CAS, the in-memory file pool used for locally created files, and the reference model. Does not go through the FUSE/NFSv4 front ends (NFSv4 OPEN/WRITE/SETATTR refusal on CAS files is left to the C18/C19 simulators); named attributes, hidden files and access monitoring (UnreadDirectoryMonitor) are not exercised. The NFS handle pool count after tearing the tree down is a diagnostic label (leaf_handles_not_returned), not part of the verdict.",
     "technique": "stateful model-based property testing (rapid) with per-scenario storage-fault enumeration, plus a cached-vs-uncached differential for the directory fetcher",
 }
